@@ -28,7 +28,11 @@ CHECKS = {
             'For each generated record set the CLI is run on the bare FASTA file and on 12 (thorough: about 20) re-presentations written by independent writers; every presentation must be accepted and give byte-identical output. Sanitizer reports and leaks on successful runs fail the check as well.',
             'Names without whitespace, residues are letters, records keep their order across parts; tab characters inside sequence lines are not generated.',
             "4/C04"),
-    "C05": (False, "", "", "", "4/C05"),
+    "C05": (True,
+            'sanitizer gate over hostile workloads: gcc ASan+UBSan(+LSan) CLI, one process per input (regression corpus, structure-aware mutation of FASTA/MSF/Clustal, grammar-generated near-valid files, option fuzzing, path and strace-injected I/O faults), exit-status / stderr / output-validity oracle, per-letter internal-code monitor, MALLOC_PERTURB_ heap-fill differential, valgrind memcheck, and a libFuzzer target (thorough)',
+            "Every input of the workload runs through the real binary built with address, undefined-behaviour and leak sanitizers with reports fatal; a run must terminate, exit 0 only with a structurally valid alignment of the input's letters (full input-vs-output oracle where the generator knows the records) and leak-free, or exit non-zero with a message. Internal residue codes are read back per letter, outputs are compared under three heap-fill patterns, memcheck looks for uninitialised-value use on small inputs and the array API, and the thorough tier adds coverage-guided fuzzing of read->run->write with artifacts re-triaged through the CLI.",
+            'Allocation-failure paths are not driven; sanitizers only see executed paths and red-zone-visible errors; thread counts capped at 1024 under the sanitizers; LeakSanitizer is off under strace (ptrace).',
+            "4/C05"),
     "C06": (True,
             'self-consistency monitor over real write/read executions: msa object after kalign_run vs msa object after kalign_read_input(kalign_write_msa(...)), field by field (names, residues, gaps[]), first hop in 3 formats and second hop over ordered format pairs, ASan+UBSan build',
             'Alignments kalign itself produces over the width / row-count / name classes the writers and readers branch on are written in every format, read back and converted again; the re-read msa object must equal the written one in row count, order, names, residues and gap vectors, and a conversion must neither be refused nor silently lose data.',
